@@ -261,6 +261,17 @@ pub enum L2Reject {
 /// dictionary; props must have been set before an LZMA chunk without props).
 /// Returns (output, bytes consumed through the end byte).
 pub fn ref_lzma2_decode(data: &[u8], strict: bool) -> Result<(Vec<u8>, usize), L2Reject> {
+    let mut produced = 0usize;
+    ref_lzma2_decode_partial(data, strict, &mut produced)
+}
+
+/// As `ref_lzma2_decode`; `produced` receives the number of bytes decoded
+/// before the end or the failure.
+pub fn ref_lzma2_decode_partial(
+    data: &[u8],
+    strict: bool,
+    produced: &mut usize,
+) -> Result<(Vec<u8>, usize), L2Reject> {
     let mut d = RefDec::new(
         Props {
             lc: 0,
@@ -269,6 +280,12 @@ pub fn ref_lzma2_decode(data: &[u8], strict: bool) -> Result<(Vec<u8>, usize), L
         },
         u64::MAX,
     );
+    let r = ref_lzma2_inner(data, strict, &mut d);
+    *produced = d.model.out.len();
+    r.map(|pos| (d.model.out, pos))
+}
+
+fn ref_lzma2_inner(data: &[u8], strict: bool, d: &mut RefDec) -> Result<usize, L2Reject> {
     let mut pos = 0usize;
     let mut need_dict_reset = true;
     let mut need_props = true;
@@ -276,7 +293,7 @@ pub fn ref_lzma2_decode(data: &[u8], strict: bool) -> Result<(Vec<u8>, usize), L
         let c = *data.get(pos).ok_or(L2Reject::MissingEnd)?;
         pos += 1;
         if c == 0 {
-            return Ok((d.model.out, pos));
+            return Ok(pos);
         }
         if c == 1 || c == 2 {
             if pos + 2 > data.len() {
